@@ -48,6 +48,11 @@ func coqRobs(o remoteObs) string {
 
 func emitSeqCase(r *h.Run, sc seqScenario, obs []opObs) {
 	var ops []string
+	for _, op := range sc.Ops {
+		if op.Key != "" {
+			return // the model has one entry (one key); several keys are independent copies of it (krun in Proofs.v)
+		}
+	}
 	for i, op := range sc.Ops {
 		o := obs[i]
 		fault := "None"
